@@ -121,3 +121,9 @@ def enc_str(alphabet: str, n, idxs) -> str:
         if k < n:
             out.append(pick(alphabet, idxs[k]))
     return ''.join(out)
+
+
+def run_native(fn, kwargs):
+    """call fn(**kwargs) with CrossHair tracing switched off (all arguments are concrete by now)"""
+    with notrace():
+        return fn(**kwargs)
